@@ -208,17 +208,45 @@ CLAIMS["C16"] = {
             "and written back unchanged and conforms (reencoding_stable, reencoded_conforms); exactly which entries are written: "
             "required / optional declared fields (known_fields_written), every unknown field kept by a struct with fallback and none by "
             "one without (unknown_fields_kept, unknown_fields_dropped_without_fallback), unknown variants kept intact by an enum with "
-            "fallback (unknown_variant_kept). Tie: rustc compiles aldrin::generate! for the schema corpus on every run (thorough: "
+            "fallback (unknown_variant_kept); and for ANY two environments where the new one keeps every definition, field and variant of the old "
+            "one (adding fields, variants, definitions) and old structs / enums have a fallback, the new type reads what the old type "
+            "wrote back exactly as it reads the original value, at every nesting level (newer_data_survives_older_type). Tie: rustc compiles aldrin::generate! for the schema corpus on every run (thorough: "
             "plus fresh grammar-generated schema batches), and every generated struct / enum / newtype / inline service type is driven "
             "with conforming and systematically damaged values in both encodings against the model; implementation-only oracles for "
             "acceptance, stability, required fields, unknown fields and variants with / without fallback, and old/new schema pairs.",
     "note": "Trusted: Lean kernel (+propext, Classical.choice, Quot.sound), harness-typed (build script and value generator), the C01 "
             "decoder model that turns bytes into the dynamic value. Partial: 'the generated code compiles for every valid schema' is a "
-            "statement about rustc and is tested on the corpus and on generated schemas, not proved; the old/new survival clause is an "
-            "oracle on schema pairs plus the fallback theorems, not one theorem over pairs of environments; typed depth limits and "
-            "serialization errors are not modelled.",
+            "statement about rustc and is tested on the corpus and on generated schemas, not proved; typed depth limits and serialization errors are not "
+            "modelled; the model acts on the decoded dynamic value, not on the typed deserializers' byte walk.",
     "design_ref": "DESIGN.md section 6 C16, section 10",
     "technique": "Lean 4 proofs over an executable model of the derive semantics + rustc on generated schemas + differential correspondence against the generated types",
 }
 
-NOT_APPLICABLE = {}
+CLAIMS["C18"] = {
+    "text": "Machine-checked proof (Lean 4) over executable models of the parser (grammar.pest read as the PEG pest executes, plus the "
+            "AST construction) and of the formatter (fmt.rs function by function, including the blank-line state machine). Proved for "
+            "all inputs: every type the grammar can produce is written as text that parses back to the same type whatever follows it "
+            "(type_roundtrip, ref_roundtrip), likewise identifiers, integer / uuid / string literals; a written comment, doc or "
+            "inline-doc line is read back as one line of the same kind and never as another kind, with the inner text it was written "
+            "from, so writing it again gives the same line (comment_line_roundtrip, doc_line_roundtrip, inline_doc_line_roundtrip, "
+            "line_inner_stable). Tie: the real parser and formatter against the models on generated and damaged schema sources "
+            "(canonical AST dump and formatted text, syntax errors included), plus implementation-only oracles for the statement "
+            "itself: the formatted text parses, to the same schema (imports sorted), idempotently, with the same diagnostics.",
+    "note": "Trusted: Lean kernel (+propext, Classical.choice, Quot.sound), the harness, the reading of pest's semantics. Partial: the "
+            "round trip of whole definitions / services / the file and of the blank-line logic is not yet a theorem (tied by "
+            "correspondence and oracles); non-ASCII identifiers and the validator (errors, warnings) are not modelled.",
+    "design_ref": "DESIGN.md section 6 C18, section 10",
+    "technique": "Lean 4 proofs over executable PEG-parser and formatter models + differential correspondence against the real parser and formatter",
+}
+
+NOT_APPLICABLE = {
+    "C06": "no theorem: the statement is about the async aldrin client (client.rs, handle.rs, proxies, channels) composed with the broker "
+           "under every schedule; lost wake-ups, deadlock on bounded transports and completion of awaited operations live in the "
+           "futures/tokio runtime, which an executable Lean model cannot exhibit, and the logical part (request/reply pairing of a client "
+           "model against the broker model) was designed but not built. A schedule-randomised run alone would be testing. DESIGN.md 10.7",
+    "C15": "no theorem: needs the same client model as C06; the deciding mechanism (every pending operation is a oneshot/channel end "
+           "owned by the client and dropped with it) is Rust drop semantics rather than protocol logic. Not built. DESIGN.md 10.7",
+    "C17": "not applicable to this technique as the code stands: absence of panics in the pest-generated parser, validator, diagnostic "
+           "renderer and formatter is a statement about Rust code paths (unwrap, slicing, arithmetic); a total Lean function proves "
+           "nothing about them and an explicit-failure model would need pest's parse trees for the whole grammar. DESIGN.md 10.7",
+}
